@@ -227,41 +227,52 @@ func checkNesting(toks []hTok) []string {
 // decode character references the way a browser does for attribute values (the subset that
 // matters for URL schemes: numeric references and the named ones goldmark can emit)
 func decodeRefs(s string) string {
-	r := strings.NewReplacer("&amp;", "&", "&lt;", "<", "&gt;", ">", "&quot;", "\"", "&#39;", "'", "&colon;", ":", "&Tab;", "\t", "&NewLine;", "\n")
-	prev := ""
-	for prev != s && false {
-		prev = s
-	}
-	out := r.Replace(s)
-	// numeric references
+	named := map[string]string{"amp": "&", "lt": "<", "gt": ">", "quot": "\"", "colon": ":", "Tab": "\t", "NewLine": "\n", "apos": "'"}
 	var b strings.Builder
-	for i := 0; i < len(out); i++ {
-		if out[i] == '&' && i+2 < len(out) && out[i+1] == '#' {
+	for i := 0; i < len(s); i++ {
+		if s[i] != '&' {
+			b.WriteByte(s[i])
+			continue
+		}
+		// one pass, left to right: a decoded character is never decoded again
+		if i+2 < len(s) && s[i+1] == '#' {
 			j := i + 2
 			base := 10
-			if out[j] == 'x' || out[j] == 'X' {
+			if s[j] == 'x' || s[j] == 'X' {
 				base = 16
 				j++
 			}
 			v := 0
 			k := j
-			for j < len(out) && (base == 16 && isHexB(out[j]) || out[j] >= '0' && out[j] <= '9') && v < 0x110000 {
-				d := int(out[j] - '0')
-				if out[j] >= 'a' {
-					d = int(out[j]-'a') + 10
-				} else if out[j] >= 'A' {
-					d = int(out[j]-'A') + 10
+			for j < len(s) && (base == 16 && isHexB(s[j]) || s[j] >= '0' && s[j] <= '9') && v < 0x110000 {
+				d := int(s[j] - '0')
+				if s[j] >= 'a' {
+					d = int(s[j]-'a') + 10
+				} else if s[j] >= 'A' {
+					d = int(s[j]-'A') + 10
 				}
 				v = v*base + d
 				j++
 			}
-			if j > k && j < len(out) && out[j] == ';' {
+			if j > k && j < len(s) && s[j] == ';' {
 				b.WriteRune(rune(v))
 				i = j
 				continue
 			}
+		} else {
+			j := i + 1
+			for j < len(s) && isTagChar(s[j]) {
+				j++
+			}
+			if j < len(s) && s[j] == ';' {
+				if r, ok := named[s[i+1:j]]; ok {
+					b.WriteString(r)
+					i = j
+					continue
+				}
+			}
 		}
-		b.WriteByte(out[i])
+		b.WriteByte('&')
 	}
 	return b.String()
 }
